@@ -519,7 +519,7 @@ type sliceErr []string
 func (e sliceErr) Error() string { return fmt.Sprint([]string(e)) }
 
 func calleeShapesScenario() *mc.Scenario {
-	return &mc.Scenario{Name: "runner/AsyncCall/callee-shapes", PB: [2]int{0, 0}, FB: [2]int{-1, -1}, Main: func(w *mc.World) {
+	return &mc.Scenario{Name: "runner/AsyncCall/callee-shapes", PB: [2]int{0, 0}, FB: [2]int{-1, -1}, ProcessState: true, NoStateCache: true, Main: func(w *mc.World) {
 		wg := &vsync.WaitGroup{}
 		rq := async.NewRunnerQ(async.WithQSize(8), async.WithWaitGroup(wg))
 		rq.Run()
